@@ -23,5 +23,10 @@ for tag in sorted(os.listdir(root)):
         "check_result": {"command": f"/venv/bin/python gemsim/cli.py check {info.get('property', tag[:3].upper())} --runs {info.get('runs', '?')}",
                          "exit_code": run["check_rc"], "caught": run["check_rc"] == 1, "violation_classes": classes},
     }
+    before = os.path.join(d, "run_before_strengthening.json")
+    if os.path.exists(before):
+        b = json.load(open(before))
+        meta["history"] = {"first_attempt_exit_code": b["check_rc"], "first_attempt_caught": b["check_rc"] == 1,
+                           "note": "result of the property's quick check as it was when the change arrived; see DESIGN.md §8.5 for what was strengthened"}
     json.dump(meta, open(os.path.join(d, "meta.json"), "w"), indent=1)
     print(tag, meta["check_result"]["caught"], classes[:3])
